@@ -26,7 +26,7 @@ func init() {
 			"through NewCalculator.For and through CalculateGaussianRate.Rate; a set is non-trivial when its per-tick real rate is fractional somewhere (so the remainder carry matters) and the window sum is > 0; " +
 			"distinct = distinct (api, #weights, tick, log10 volume, log2 ticks, peak position class, sigma class) classes observed",
 		Assumptions: []string{
-			"tick frequency divides the window, peak inside the window, sigma in [tick, window], weights >= 0 with a positive first weight (the property's domain)",
+			"tick frequency divides the window, peak inside the window, sigma from one tick up to 12 windows, weights >= 0 with a positive first weight (the property's domain)",
 			"'discretisation error' is the Riemann-sum bound V*(w/avg)*f*(TV(g)+g(R-f)+g(R))/covered plus one unit of carried remainder",
 			"weights are matched in cyclic order from some offset; absolute alignment is not assumed",
 		},
@@ -92,6 +92,9 @@ func c11Run(c *core.Case, o *core.Outcome) {
 			sigma = f
 		case 1:
 			sigma = R
+		case 2:
+			// curves much broader than the window: only a slice of the bell falls inside it
+			sigma = time.Duration(float64(R) * (1 + r.Float64()*11))
 		}
 		nw := 0
 		if r.IntN(2) == 0 {
@@ -268,6 +271,8 @@ func c11Run(c *core.Case, o *core.Outcome) {
 			sc := "mid"
 			if sigma == f {
 				sc = "min"
+			} else if sigma > 3*R {
+				sc = "broad"
 			} else if sigma >= R {
 				sc = "max"
 			}
